@@ -243,6 +243,30 @@ Definition view_conn (s : state) (i : nat) :=
 
 Definition view_defs (s : state) := map (view_tables (st_heap s)) (st_defs s).
 
+(* ---- what a connection ANSWERS: a function of the value of its own tables ---------------------- *)
+Definition conn_view := (option (list (bytes * option (privf * list bytes))) * option (list bytes))%type.
+
+Definition answer {Q R : Type} (f : conn_view -> Q -> R) (s : state) (i : nat) (q : Q) : option R :=
+  match view_conn s i with Some v => Some (f v q) | None => None end.
+
+(* _determine_current_priv read as such a function: the names of the levels none of whose
+   not_contains fragments occurs in the prompt and whose pattern matches it (the regex matcher is a
+   parameter); None = ScrapliPrivilegeError.  No cache, no state besides the connection's table. *)
+Definition level_matches (m : bytes -> bytes -> bool) (prompt : bytes) (e : bytes * option (privf * list bytes)) : bool :=
+  match snd e with
+  | Some (f, nc) => negb (existsb (fun x => infixb x prompt) nc) && m (pf_pattern f) prompt
+  | None => false
+  end.
+
+Definition level_name (e : bytes * option (privf * list bytes)) : bytes :=
+  match snd e with Some (f, _) => pf_name f | None => [] end.
+
+Definition classify (m : bytes -> bytes -> bool) (v : conn_view) (prompt : bytes) : option (list bytes) :=
+  match fst v with
+  | Some es => match map level_name (filter (level_matches m prompt) es) with [] => None | l => Some l end
+  | None => None
+  end.
+
 (* ---- identity graph: the addresses a table reaches ------------------------------------------- *)
 Definition links (o : obj) : list addr :=
   match o with OList _ => [] | OPriv _ nc => [nc] | ODict es => map snd es end.
